@@ -112,6 +112,66 @@ theorem nnas_setters_take_effect : nnasWitness.all (fun p => nnasObs (Nnas.apply
 theorem nasc_setters_take_effect : nascWitness.all (fun p => nascObs (nascBase.apply p.1) != nascObs (nascBase.apply p.2)) = true :=
   nasc_setters_effect
 
+/-! ### … for every value, not only for the two witnesses
+
+The witnesses above show *that* a setter has an effect.  The statements below say *where* the arguments go and hold for
+all values of the arguments — 0, the empty string and the largest value of the field are not special — and for every
+public call, and after any later setter of another attribute group.  The check asks the real client the same question
+for the boundary values of every parameter (harness/api_boundary.py). -/
+
+/-- nnas: after `set_x(args)` every prepared request carries `args` in the documented headers -/
+theorem nnas_setter_argument_carried (s : Nnas) (st : NnasSet) (auth cert : Option String) :
+    ∀ f ∈ st.fields, f ∈ (s.apply st).prepare auth cert :=
+  nnas_setter_carried s st auth cert
+
+/-- … `login` additionally carries the device certificate -/
+theorem nnas_login_argument_carried (s : Nnas) (st : NnasSet) (u p : String) (t : Option String) :
+    ∀ f ∈ st.fields ++ st.loginFields, f ∈ ((s.apply st).login u p t).2.headers :=
+  nnas_login_carried s st u p t
+
+/-- … and a later setter of another group leaves it in place -/
+theorem nnas_setter_argument_persists (s : Nnas) (st st' : NnasSet) (h : st.kind ≠ st'.kind) (auth cert : Option String) :
+    ∀ f ∈ st.fields, f ∈ ((s.apply st).apply st').prepare auth cert :=
+  nnas_setter_persists s st st' h auth cert
+
+/-- the optional headers are absent from a client on which the setter was never called; hence `set_title` / `set_device`
+    with *any* arguments is observable against the never-configured client -/
+theorem nnas_optional_headers_omitted_by_default (auth cert : Option String) :
+    ∀ p ∈ ({} : Nnas).prepare auth cert, p.1 ∉ nnasOptionalHeaders :=
+  nnas_optional_omitted auth cert
+
+theorem nnas_title_observable (id v : Nat) (auth cert : Option String) :
+    (({} : Nnas).apply (.title id v)).prepare auth cert ≠ ({} : Nnas).prepare auth cert := by
+  intro h
+  have h1 := nnas_setter_carried {} (.title id v) auth cert ("X-Nintendo-Application-Version", hexU 4 v) (by simp [NnasSet.fields])
+  rw [h] at h1
+  exact nnas_optional_omitted auth cert _ h1 (by simp [nnasOptionalHeaders])
+
+theorem nnas_device_observable (id sv : Nat) (serial : String) (c auth cert : Option String) :
+    (({} : Nnas).apply (.device id serial sv c)).prepare auth cert ≠ ({} : Nnas).prepare auth cert := by
+  intro h
+  have h1 := nnas_setter_carried {} (.device id serial sv c) auth cert ("X-Nintendo-Device-ID", dec id) (by simp [NnasSet.fields])
+  rw [h] at h1
+  exact nnas_optional_omitted auth cert _ h1 (by simp [nnasOptionalHeaders])
+
+/-- every public nnas call sends exactly the prepared headers -/
+theorem nnas_every_call_prepares (s : Nnas) (tok cid : String) (g : Nat) (pids : List Nat) (nnids : List String) :
+    (s.getNexToken tok g).2.headers = s.prepare (some tok) none ∧ (s.getServiceToken tok cid).2.headers = s.prepare (some tok) none ∧
+    (s.getProfile tok).2.headers = s.prepare (some tok) none ∧ (s.getMiis pids).2.headers = s.prepare none none ∧
+    (s.getPids nnids).2.headers = s.prepare none none ∧ (s.getNnids pids).2.headers = s.prepare none none :=
+  nnas_calls_prepare s tok cid g pids nnids
+
+/-- nasc: after a setter that accepted its arguments, the `LOGIN` form and headers carry them in the documented fields -/
+theorem nasc_setter_argument_carried (s s' : Nasc) (st : NascSet) (h : s.apply st = .ok s') (g : Nat) (nick dt : String)
+    (F : List (String × RawV)) (hF : s'.form g nick dt = some F) :
+    (∀ f ∈ st.fields, f ∈ F) ∧ (∀ f ∈ st.hdrFields, f ∈ s'.loginHeaders g) :=
+  ⟨nasc_setter_carried s s' st h g nick dt F hF, nasc_setter_hdr_carried s s' st h g⟩
+
+-- the hypotheses are satisfiable at the boundary values the statement is about
+example : ("X-Nintendo-Application-Version", "0000") ∈ (({} : Nnas).apply (.title 0 0)).prepare none none := by decide
+example : ("X-Nintendo-Device-ID", "0") ∈ (({} : Nnas).apply (.device 0 "" 0 (some ""))).prepare none none := by decide
+example : (nascBase.apply (.user 0 "")).map (fun s => (s.form 0 "" "").map fun F => decide (("userid", RawV.s "0") ∈ F)) = .ok (some true) := by decide
+
 theorem hpp_environment_takes_effect :
     Hpp.host { gameServerId := 0x1234, environment := "L1" } ≠ Hpp.host { gameServerId := 0x1234, environment := "D1" } :=
   hpp_set_environment
